@@ -1434,10 +1434,13 @@ class TLSRecordLayer(object):
         self._defragmenter.clear_buffers()
         self.allegedSrpUsername = None
         self._refCount = 1
+        self._recordLayer.handshake_finished = False
 
     def _handshakeDone(self, resumed):
         self.resumed = resumed
         self.closed = False
+        # unprotected alerts are acceptable only during the handshake
+        self._recordLayer.handshake_finished = True
 
     def _calcPendingStates(self, cipherSuite, masterSecret,
                            clientRandom, serverRandom, implementations):
